@@ -945,3 +945,65 @@ def b_instr_note(tier, rnd):
 def b_numeral_tuples(tier, rnd):
     return {"rule": "7 numerals x accidental counts -14..8 x 6 suffixes",
             "cases": [((r, a, s),) for r in NUMS for a in range(-14, 9) for s in ("", "7", "m", "dim7", "M7", "dom7")]}
+
+
+@battery("track_note")
+def b_track_note(tier, rnd):
+    from mingus.containers.note import Note
+    cases = []
+    for t_i in range(3):
+        for n in all_names(1):
+            for o in (-2, -1, 0, 4, 8, 9, 10):
+                for (ch, vel) in ((0, 0), (9, 64), (15, 127), (3, 128), (3, -1)):
+                    t = _tracks()[t_i]
+                    t.track_data = b"\x00\xff\x51\x03\x07\xa1\x20" * t_i
+                    x = Note(n, max(o, 0))
+                    x.octave = o
+                    x.channel, x.velocity = ch, vel
+                    cases.append((t, x))
+    return {"rule": "3 tracks (different pending delta / existing data) x 21 names x octaves -2..10 x 5 channel/velocity pairs "
+                    "incl. out-of-range", "cases": cases}
+
+
+@battery("track_nc")
+def b_track_nc(tier, rnd):
+    from mingus.containers.note import Note
+    from mingus.containers.note_container import NoteContainer
+    cases = []
+    names = all_names(1)
+    for t_i in range(3):
+        for k in range(0, 6):
+            for _ in range(12):
+                nc = NoteContainer()
+                for j in range(k):
+                    x = Note(rnd.choice(names), rnd.randint(0, 8))
+                    x.channel, x.velocity = rnd.randint(0, 15), rnd.randint(0, 127)
+                    nc.notes.append(x)
+                t = _tracks()[t_i]
+                cases.append((t, nc))
+    return {"rule": "3 pending delta times x containers of 0..5 seeded notes (unsorted on purpose: the writer must keep the "
+                    "container's order)", "cases": cases}
+
+
+def _seq_ncs(rnd):
+    from mingus.containers.note_container import NoteContainer
+    out = [None]
+    ns = _seq_notes()
+    for k in range(0, 5):
+        for _ in range(8):
+            nc = NoteContainer()
+            nc.notes = [rnd.choice(ns) for _ in range(k)]
+            out.append(nc)
+    return out
+
+
+@battery("seq_nc")
+def b_seq_nc(tier, rnd):
+    return {"rule": "None and containers of 0..4 seeded notes (own channel/velocity) x argument channel/velocity",
+            "cases": [(_rec_sequencer(), nc, c, v) for nc in _seq_ncs(rnd) for c in (1, 7) for v in (100, 3)]}
+
+
+@battery("seq_nc_stop")
+def b_seq_nc_stop(tier, rnd):
+    return {"rule": "None and containers of 0..4 seeded notes x argument channel",
+            "cases": [(_rec_sequencer(), nc, c) for nc in _seq_ncs(rnd) for c in (1, 7)]}
